@@ -223,6 +223,16 @@ def run(ctx):
         ctx.floor('lane-wise float operations (%s)' % cfg, n_lane, FLOOR_LANEWISE)
         ctx.floor('float reductions / predicates (%s)' % cfg, n_red, FLOOR_REDUCE)
         ctx.floor('float vector types (%s)' % cfg, len(types), 7)
+        # Sum / Product over iterators are left folds of + / * (generic bodies)
+        import fold
+
+        def _done(rule, name, bad, it):
+            if bad:
+                ctx.violation(rule, cfg, name, {'file': it['file'], 'line': it['line'], 'problem': bad})
+            else:
+                ctx.holds(rule, cfg, name)
+        nf_ = fold.check_folds(ctx, cfg, F, H, lambda tn: 'float' if tn in FLOAT_TYPES else None, _done)
+        ctx.floor('Sum / Product impls of float vectors (%s)' % cfg, nf_, 28)
         # math shim: every f32::math / f64::math function is one call of the same-named primitive
         check_shim(ctx, cfg, F, H)
     ctx.extra['exhaustive'] = True
